@@ -150,30 +150,35 @@ func VPH_C12_http() {
 	vp.Assert(ip4 != nil && ip4[0] == 10, "admitted-peer-inside-allow-block")
 }
 
-// VPH_C12_http_xff: with an admitted peer, every parseable X-Forwarded-For element (up to two)
-// must lie inside the allow list as well.
+// VPH_C12_http_xff: with an admitted peer, every parseable X-Forwarded-For element must lie
+// inside the allow list as well (chains of up to two elements; the first element may repeat
+// the peer address, which fabio skips).
 func VPH_C12_http_xff() {
 	t := &Target{URL: vpURL(), Opts: map[string]string{"allow": "ip:10.0.0.0/8"}}
 	vp.Assert(t.ProcessAccessRules() == nil, "rule-parses")
-	x1, x2 := vp.String("xff1"), vp.String("xff2")
-	vp.Assume(!strings.Contains(x1, ",") && !strings.Contains(x2, ","))
-	xff := x1
-	if vp.Param("TWO") == 1 && vp.Bool("two") {
-		xff = x1 + "," + x2
+	x2 := vp.String("xff2")
+	vp.Assume(!strings.Contains(x2, ","))
+	var elems []string
+	switch vp.Choice("first", 4) {
+	case 0:
+		elems = []string{"10.1.2.3", x2} // repeats the peer
+		vp.Cover("peer-repeated")
+	case 1:
+		elems = []string{" 10.9.9.9", x2}
+	case 2:
+		elems = []string{x2, "10.1.2.3"}
+	default:
+		elems = []string{x2}
 	}
+	xff := strings.Join(elems, ",")
 	req := &http.Request{RemoteAddr: "10.1.2.3:4711", Header: http.Header{"X-Forwarded-For": {xff}}}
 	denied := t.AccessDeniedHTTP(req)
-	for _, x := range []string{x1, x2} {
-		if x == x2 && xff == x1 {
-			break
-		}
-		x = strings.TrimSpace(x)
-		if xip := net.ParseIP(x); xip != nil {
-			x4 := xip.To4()
-			if x4 == nil || x4[0] != 10 {
-				vp.Cover("xff-outside")
-				vp.Assert(denied, "xff-element-outside-allow-list-is-denied")
-			}
+	x := strings.TrimSpace(x2)
+	if xip := net.ParseIP(x); xip != nil {
+		x4 := xip.To4()
+		if x4 == nil || x4[0] != 10 {
+			vp.Cover("xff-outside")
+			vp.Assert(denied, "xff-element-outside-allow-list-is-denied")
 		}
 	}
 	if !denied {
